@@ -486,6 +486,10 @@ def r2_coupling_helpers(ctx, rid):
                 raise AnalysisError(f"{rid}: registration of the post-synaptic variable in source_vars not found next to `{norm(st)}`")
             d = {k.value: v for k, v in zip(regs[0].value.keys, regs[0].value.values) if isinstance(k, ast.Constant)}
             node_role = Roles(ctx, f).atom(d.get("node")) if d.get("node") is not None else None
+            if node_role is None and isinstance(d.get("node"), ast.Name):
+                # loop variables over the per-source-node table carry their role in their name (seed vocabulary of _roles_util)
+                from ._roles_util import seed_of
+                node_role = seed_of(d["node"].id)
             if node_role == TGT:
                 ctx.ok(rid, f, regs[0], "the post-synaptic variable is read from the target node", label=f"post var node: {norm(regs[0])}")
             elif node_role in (SRC, MIX):
